@@ -491,8 +491,153 @@ def quoted_region_lines(rng, per_region=1, regions=None):
                     yield region, placement, kind, line
 
 
+# ------------------------------------------------------------------------------------------------- pathological repetition
+# (C14, "parsing terminates") Every list- / sequence-like syntactic REGION that the parsers scan with a regular expression or a
+# character loop gets a long run (30, 60, 200, 2000) of one repeated ITEM, followed by each kind of WRONG TERMINATOR (nothing, a
+# decimal point, ';', a letter, a blank, a stray comma / minus / quote / backslash), and then each combination of the region's own
+# closing token (`]`, `"`, …) and the enclosing one (`}`, the rest of the line) present or lost.  A regular expression with a
+# nested or optional-separator quantifier, or a scanner that restarts from the left, needs time exponential / cubic in the run on
+# exactly these inputs: the list does not close where the scanner expects, so every split of the run is tried.
+PATHO_LENGTHS = (30, 60, 200, 2000)
+WRONG_TERMINATORS = [('nothing', ''), ('decimal-point', '.'), ('decimal-fraction', '.5'), ('semicolon', ';'), ('letter', 'x'),
+                     ('blank', ' '), ('comma', ','), ('minus', '-'), ('quote', '"'), ('backslash', '\\')]
+_NH_BASE = 'count:24,sum:100,schema:0,zero_threshold:0.001,zero_count:4'
+_NH_REST = ',sum:100,schema:0,zero_threshold:0.001,zero_count:4'
+_NUM_ITEMS = ['1', '0', '9', '.', 'e', 'E', '-', '+', ' ', '_', '1e', '1.', '.1', 'n', '\t', '1 ']
+_LABEL_LIST_ITEMS = ['l="v",', 'l="v"', 'l="v" ,', 'l=', 'l', 'l,', '"', '""', '\\', ',', ' ', '=', '"x",', '{', 'l="\\"",', 'l="\\\\",',
+                     lambda k: ''.join('l%d="v",' % i for i in range(k)), lambda k: ''.join('"l.%d"="v",' % i for i in range(k))]
+_LABEL_VALUE_ITEMS = ['x', '\\\\', '\\"', '\\n', '\\', ' ', ',', '=', '}', '{', '#', 'é', '\\x', '",', '"']
+_DELTA_ITEMS = ['1', '9', '-1', '1,', '-1,', '1, ', ' 1,', '1 ,', ' ', ',', '-', '1 ', ' 1', ', ', '1,,', '٣', '٣,']
+_SPAN_ITEMS = ['1', '0:1,', '0:1', '0:', '1:', ':', ',', ' ', '0:1, ', '0: 1,', '1,', '0:1,,', '٣:٣,']
+
+
+def _region(name, head, pre, items, inner, outer, tail='', om_only=False):
+    return {'name': name, 'head': head, 'pre': pre, 'items': items, 'inner': inner, 'outer': outer, 'tail': tail, 'om_only': om_only}
+
+
+def patho_regions():
+    """the regions: name, lines before, text of the line before the run, the items to repeat, the region's own closing token
+    (`inner`), the enclosing closing token (`outer`), the rest of the line"""
+    H = '# TYPE nh histogram\n'
+    C = '# TYPE a counter\n'
+    out = []
+    for key, items in (('positive_deltas', _DELTA_ITEMS), ('negative_deltas', _DELTA_ITEMS),
+                       ('positive_spans', _SPAN_ITEMS), ('negative_spans', _SPAN_ITEMS)):
+        other = {'positive_deltas': 'positive_spans:[0:2,1:2],', 'negative_deltas': 'negative_spans:[0:2,1:2],',
+                 'positive_spans': '', 'negative_spans': ''}[key]
+        # the list alone, behind a few well-formed elements, and in a labelled sample
+        out.append(_region('nh-' + key, H, 'nh {' + _NH_BASE + ',' + other + key + ':[', items, ']', '}', om_only=True))
+        first = '2,1,-1,' if 'deltas' in key else '0:2,1:2,'
+        out.append(_region('nh-' + key + '-after-elements', H, 'nh{a="b"} {' + _NH_BASE + ',' + other + key + ':[' + first, items, ']', '}',
+                           om_only=True))
+        out.append(_region('nh-' + key + '-then-fields', H, 'nh {' + key + ':[', items, ']', ',' + _NH_BASE + '}', om_only=True))
+    out.append(_region('nh-span-length', H, 'nh {' + _NH_BASE + ',positive_spans:[0:', _SPAN_ITEMS[:3] + ['9'], ']', '}', om_only=True))
+    out.append(_region('nh-int-field', H, 'nh {count:', ['1', '9', ' ', '1 ', ':', '-', '_', '1_', '٣', 'count:'], _NH_REST, '}', om_only=True))
+    out.append(_region('nh-float-field', H, 'nh {count:24,sum:100,schema:0,zero_count:4,zero_threshold:', _NUM_ITEMS, '', '}', om_only=True))
+    out.append(_region('nh-fields', H, 'nh {' + _NH_BASE + ',',
+                       ['a', 'a:1,', 'count:1,', ':', ',', ' ', '[', ']', '{', 'positive_deltas:[1],', 'positive_spans:[0:1],', 'a:', ':1,',
+                        'positive_deltas:[', 'positive_spans:[', '[1,', '[0:1,', lambda k: ''.join('f%d:1,' % i for i in range(k))],
+                       '', '}', om_only=True))
+    out.append(_region('nh-before-struct', H, 'nh', [' ', '\t', '#', ' #', '{', '"', '\\'], ' {' + _NH_BASE, '}', om_only=True))
+    out.append(_region('nh-after-struct', H, 'nh {' + _NH_BASE + '}', [' ', '}', '#', ' 1', ' # {a="b"} 1', ']'], '', '', om_only=True))
+    for nm, head, pre, tail in (('label', '', 'a', ' 1'), ('exemplar-label', C, 'a_total 1 # ', ' 1 2')):
+        out.append(_region(nm + '-list', head, pre + '{', _LABEL_LIST_ITEMS, '', '}', tail))
+        out.append(_region(nm + '-list-after-label', head, pre + '{job="j",', _LABEL_LIST_ITEMS, '', '}', tail))
+        out.append(_region(nm + '-value', head, pre + '{l="', _LABEL_VALUE_ITEMS, '"', '}', tail))
+        out.append(_region(nm + '-name', head, pre + '{', ['l', '_', ' ', '"', '\\', 'é', '\\"'], '="v"', '}', tail))
+        out.append(_region(nm + '-quoted-name', head, pre + '{"', ['a', '\\\\', '\\"', '\\n', '.', ' ', '=', ',', '\\'], '"', '="v"}', tail))
+    out.append(_region('name-in-braces', '', '{"', ['a', '\\\\', '\\"', '\\n', '.', ' ', '=', ',', '}', '\\'], '"', '}', ' 1'))
+    out.append(_region('metric-name', '', '', ['a', ':', '_', ' ', '{', '}', '#', '"', '\\', 'é', '{}', '{"a"}'], '', ' 1'))
+    out.append(_region('name-value-gap', '', 'a', [' ', '\t', '\xa0', '#', ' #'], '', '1'))
+    out.append(_region('value', '', 'a ', _NUM_ITEMS, '', '', ' 2'))
+    out.append(_region('labelled-value', '', 'a{l="v"} ', _NUM_ITEMS, '', ''))
+    out.append(_region('timestamp', '', 'a 1 ', _NUM_ITEMS, '', ''))
+    out.append(_region('exemplar-gap', C, 'a_total 1', [' ', '#', ' #', '# ', '\t', '# {', ' # {}', ' # {a="b"} 1'], '', ' # {t="q"} 1'))
+    out.append(_region('exemplar-value', C, 'a_total 1 # {t="q"} ', _NUM_ITEMS, '', '', ' 2'))
+    out.append(_region('exemplar-timestamp', C, 'a_total 1 # {t="q"} 1 ', _NUM_ITEMS, '', ''))
+    out.append(_region('help-text', '', '# HELP a ', ['\\', '\\\\', '\\n', '\\"', ' ', 'x', '"', '#', '\\x', 'é'], '', '', '\na 1'))
+    out.append(_region('metadata-name', '', '# TYPE ', ['a', ' ', '"', '\\', '\\"', '#', '\\\\', ':'], '', ' gauge'))
+    out.append(_region('metadata-quoted-name', '', '# TYPE "', ['a', ' ', '\\', '\\"', '\\\\', '\\n', '.'], '"', ' gauge'))
+    out.append(_region('metadata-kind', '', '# TYPE a ', ['gauge', 'g', ' ', 'gauge ', '#'], '', ''))
+    out.append(_region('unit', '', '# TYPE a_x gauge\n# UNIT a_x ', ['x', ' ', '_', '\\'], '', ''))
+    out.append(_region('comment', '', '', ['#', '# ', ' ', '\t', '#\t', '# #'], '', '', ' a 1'))
+    out.append(_region('lines', '', '', ['\n', 'a 1\n', '# HELP a x\n', '#\n', ' \n', '# TYPE a gauge\n', 'a{l="v"} 1\n', '\r\n', '\r', '# EOF\n',
+                                         lambda k: ''.join('a{l="%d"} 1\n' % i for i in range(k)),
+                                         lambda k: ''.join('# TYPE a%d gauge\na%d 1\n' % (i, i) for i in range(k))], '', ''))
+    return out
+
+
+def patho_documents(rng, lengths=PATHO_LENGTHS, full_lengths=(30, 60), sample_per_item=1):
+    """yields (parser, description, document), shortest runs first.  For run lengths in `full_lengths` the whole product region ×
+    item × wrong terminator × closing-token combination is enumerated; for the other lengths every (region, item) gets
+    `sample_per_item` random (terminator, closing) choices (None = the whole product as well).  Documents that coincide are
+    yielded once.  OpenMetrics documents end in '# EOF'; the text parser gets the same lines without it (native-histogram regions
+    only go to the OpenMetrics parser: the text format has no such syntax and sees them through the label-list regions)."""
+    seen = set()
+    regions = patho_regions()
+    for k in sorted(lengths):
+        for reg in regions:
+            closers = []
+            for cname, ctext in (('closed', reg['inner'] + reg['outer']), ('own-closing-token-lost', reg['outer']),
+                                 ('enclosing-closing-token-lost', reg['inner']), ('both-lost', '')):
+                if ctext not in [c[1] for c in closers]:
+                    closers.append((cname, ctext))
+            for it_no, item in enumerate(reg['items']):
+                run = item(k) if callable(item) else item * k
+                shown = ('generated item #%d' % it_no) if callable(item) else repr(item)
+                combos = [(t, c) for t in WRONG_TERMINATORS for c in closers]
+                if k not in full_lengths and sample_per_item is not None:
+                    combos = rng.sample(combos, min(sample_per_item, len(combos)))
+                for (tname, ttext), (cname, ctext) in combos:
+                    body = reg['head'] + reg['pre'] + run + ttext + ctext + reg['tail'] + '\n'
+                    desc = {'region': reg['name'], 'item': shown, 'run': k, 'terminator': tname, 'closing': cname}
+                    for which in (('om',) if reg['om_only'] else ('om', 'text')):
+                        doc = body + ('# EOF\n' if which == 'om' else '')
+                        if (which, doc) in seen:
+                            continue
+                        seen.add((which, doc))
+                        yield which, desc, doc
+
+
 if __name__ == '__main__':
     import random
     import sys
     r = random.Random(int(sys.argv[1]) if len(sys.argv) > 1 else 0)
     sys.stdout.write(gen_doc(r).render())
+
+
+# ------------------------------------------------------------------------------------------------- history and position (C15)
+# What a rule-enforcing parser decides about a document must not depend on what it parsed before (earlier calls in the same
+# process, earlier families of the same document).  The pieces below give the C15 check the material to vary that history:
+#   EXPOSED_SUFFIXES      the sample names a family of each type exposes (from the OpenMetrics wording, suffix '' = the bare name);
+#                         every OTHER name a family reserves is not a legal sample of it anywhere
+#   gen_warmup_docs       valid documents that together contain families of every type (parsed before the document under test)
+#   gen_preceded_docs     for every type t a valid document whose families are [t, another type, t] (+ optionally more): a
+#                         transformation applied to the LAST family is preceded in the same document by a valid family of the
+#                         same type and by one of another type; applied to the first it is the first of its type
+EXPOSED_SUFFIXES = {'counter': ['_total', '_created'], 'summary': ['', '_count', '_sum', '_created'],
+                    'histogram': ['_count', '_sum', '_bucket', '_created'], 'gaugehistogram': ['_gcount', '_gsum', '_bucket'],
+                    'info': ['_info'], 'gauge': [''], 'stateset': [''], 'unknown': ['']}
+
+
+def gen_warmup_docs(rng, n=2):
+    """n valid documents, each with one family of every type (in a rotated order)"""
+    out = []
+    for i in range(n):
+        k = rng.randrange(len(TYPES))
+        out.append(gen_doc(rng, types=TYPES[k:] + TYPES[:k], nfam=len(TYPES)))
+    return out
+
+
+def gen_preceded_docs(rng, types=None):
+    """[(t, Doc)]: for every type t a document with families of types [t, o, t] (o another type, drawn)"""
+    out = []
+    for t in (types or TYPES):
+        o = rng.choice([x for x in TYPES if x != t])
+        out.append((t, gen_doc(rng, types=[t, o, t], nfam=3)))
+    return out
+
+
+def stray_sample_line(name, value='1'):
+    """a sample line without labels under `name` (quoted form when the name is not a legacy name)"""
+    return ('%s %s' % (name, value)) if is_legacy(name) else ('{"%s"} %s' % (esc(name), value))
